@@ -10,6 +10,11 @@ NOT_APPLICABLE = {
 for _p in ["C%02d" % i for i in range(1, 21)]:
     NOT_APPLICABLE.setdefault(_p, PENDING)
 CLAIMED = {
+    "C20": {
+        "text": "Decides structural necessary conditions of the CSV rendering for all sheets and option combinations: the loop nest is exactly [1,highest row] x [1,highest column] of the active sheet (affine index summary, bounds paired with the right extent component, (column,row) lookup order, rows outermost); ',' joiner and one CR LF per record; trim/wrap guarded by their own options, str::trim on both sides, trim before wrap, wrap character on both sides; wrap character doubled before wrapping; every CsvEncodeValues variant dispatches to the encoding_rs static of the same encoding (table from the WHATWG names). The unquoted-delimiter case is a listed finding. Does not decide the parser round trip.",
+        "note": NOTE,
+        "technique": "typed-HIR structural rules: affine loop-bound summary, literal tables, guard/ordering checks, enum dispatch table vs spec table",
+    },
     "C12": {
         "text": "Decides, for all histories, that a save is free of effects on the workbook: type-level inventory of interior mutability reachable from Spreadsheet; no mutable lock acquisition reachable from any function that serialises a &Spreadsheet is on an object originating in the workbook (interprocedural origin tracing through parameters and closure captures); the tables handed to the part writers are created inside the save. The residual (private copy of the loaded table when a raw sheet exists) is a listed finding. Does not decide the textual content of the package.",
         "note": NOTE,
